@@ -15,6 +15,9 @@ C07 — specification: the chain of trust, stated over the upstream (`Env.up`) a
   is signed (`sigRes … = secure`) by a `DirectKey` key `k'` of the same RRset that the RRSIG names as
   its signer.
 
+(The sigRes oracle includes `RrsigValidity::check`, so a `secure` verdict also means that the RRSIG's signer
+name, algorithm and key tag are those of `k` and that `k` is a zone key — property C06.)
+
 These are the links the property lists: "DS digests matching DNSKEYs and DNSKEY RRsets signed by
 those keys".  The strict reading for a DNSKEY *record* returned Secure is `KeySigned` (anchor, or
 member of a DNSKEY RRset signed by a DirectKey key).
@@ -74,17 +77,5 @@ def KeySigned (env : Env) (q : Query) (sec : Nat) (k : Rec) : Prop :=
 /-- Upstream responses carry unvalidated records (the wrapped handle is not itself a validator). -/
 def UpClean (env : Env) : Prop :=
   ∀ q m, ((env.up q).out = .ok m ∨ (env.up q).out = .noRecords m) → ∀ r ∈ m.all, r.proof = .indet
-
-/-! ### denial: when may a record be Insecure -/
-
-/-- `Denial env fuel zone`: the DS lookup for `zone` ended in "insecure" for a stated reason.
-(Spec of the *reasons* the property admits; see `Proofs/C07.lean` for what is proved about it.) -/
-inductive InsecureReason where
-  /-- the validated DS RRset holds only DS records with an unsupported algorithm or digest type -/
-  | unsupportedDs
-  /-- the DS response has no DS record in its answer section (validated negative answer,
-      or — finding `C07.DsAnswerWithoutDsAccepted` — any answer section without a DS) -/
-  | noDsInAnswer
-  deriving DecidableEq, Repr
 
 end HickoryVerif.Chain
